@@ -47,6 +47,8 @@ struct Fresh<'a> {
     rep: &'a mut Report,
     log: &'a mut EventLog,
     names: &'a mut Vec<String>,
+    /// per class: number of samples and, per byte position, the set of values seen (256-bit sets)
+    spread: std::collections::BTreeMap<String, (u64, Vec<[u64; 4]>)>,
 }
 impl Fresh<'_> {
     /// one observed random field
@@ -55,6 +57,13 @@ impl Fresh<'_> {
             self.names.push(class.to_string());
         }
         self.log.push(class, seq, value);
+        let e = self.spread.entry(class.to_string()).or_insert_with(|| (0, vec![[0u64; 4]; value.len()]));
+        e.0 += 1;
+        if e.1.len() == value.len() {
+            for (i, b) in value.iter().enumerate() {
+                e.1[i][(*b >> 6) as usize] |= 1u64 << (*b & 63);
+            }
+        }
         if degenerate(value) {
             self.rep.violation(&format!("C16|{class}|degenerate-random-field"), json!({"class": class, "value": hx_short(value)}));
         }
@@ -172,8 +181,30 @@ fn run_fresh(opts: &Opts, rep: &mut Report) {
     let mut log = EventLog { f: std::fs::File::create(&path).ok().map(std::io::BufWriter::new), n: 0 };
     let mut names = vec![];
     {
-        let mut fr = Fresh { rep, log: &mut log, names: &mut names };
+        let mut fr = Fresh { rep, log: &mut log, names: &mut names, spread: Default::default() };
         for_backends!(opts, fresh_backend, opts, &mut fr);
+        // every byte position of a random field must actually vary (a partly constant nonce would
+        // not repeat within any feasible run, but its constant bytes are visible immediately)
+        let spread = std::mem::take(&mut fr.spread);
+        for (class, (n, sets)) in spread {
+            if n < 64 || class.contains("v1.generated-secret-key") {
+                continue; // too few samples / DER-structured RSA keys
+            }
+            let need = 24;
+            for (i, set) in sets.iter().enumerate() {
+                // structured positions: SEC1 tag byte of a compressed P-384 point; top byte of an RSA-KEM value
+                if (class.contains("v3") && class.contains("ephemeral-public-key") && i == 0) || (class.contains("rsa-kem") && i == 0) {
+                    continue;
+                }
+                // Ed25519 secret keys carry seed || public key: both halves vary; P-384 scalars vary
+                let distinct: u32 = set.iter().map(|w| w.count_ones()).sum();
+                if distinct < need {
+                    fr.rep.violation(&format!("C16|{class}|random-field-byte-does-not-vary"), json!({"class": class, "byte_position": i, "samples": n, "distinct_values_seen": distinct}));
+                    break;
+                }
+            }
+            fr.rep.count("random-field-classes-checked-for-per-byte-variation");
+        }
     }
     if let Some(f) = &mut log.f {
         let _ = f.flush();
